@@ -212,6 +212,14 @@ def handle (m : String) (j : Json) : Option (R Json) :=
       let levels ← many parseCfgLevel j "levels"
       let ps ← parseProbes j
       return Json.mkObj [("levels", .arr (runCfg ps levels none).toArray)]
+  | "c06.wf" => some do
+      -- the hypotheses `Op.wf` / `Elem.wf` of the C06 theorems, decided on the names the harness read from
+      -- the REAL element objects of the case (theorem `Props.C06.wf_decides`)
+      let es ← many parseElem j "elems"
+      return Json.mkObj [("wf", .bool (es.all Elem.wfB)),
+                         ("ill_formed", jList (fun e => match e with
+                            | Elem.opt o => jNat o.tag | .copt c => jNat c.tag | _ => jNat 0)
+                            (es.filter (fun e => !e.wfB)))]
   | _ => none
 
 end Clikit.Drv.C06
